@@ -148,6 +148,12 @@ impl ACtl {
     pub fn take_rec(&self) -> Vec<ARec> {
         std::mem::take(&mut *self.rec.lock().unwrap())
     }
+    /// like `fault`, for MUTATING trait calls: one in five injected failures is of kind not-found
+    /// (from an observer that would be an answer, not a failure)
+    pub fn fault_m(&self) -> Option<std::io::Error> {
+        let k = self.fail_at.load(Ordering::Relaxed);
+        self.fault().map(|e| if k % 5 == 4 { std::io::Error::new(std::io::ErrorKind::NotFound, "injected fault (not found)") } else { e })
+    }
     pub fn quiet<T>(&self, f: impl FnOnce() -> T) -> T {
         let o = self.on.swap(false, Ordering::SeqCst);
         let r = f();
@@ -304,7 +310,7 @@ impl AsyncFileSystem for PendFS {
     }
     async fn create_dir(&self, path: &str) -> VfsResult<()> {
         YieldN(self.ctl.draw()).await;
-        if let Some(e) = self.ctl.fault() {
+        if let Some(e) = self.ctl.fault_m() {
             return Err(vfs::VfsError::from(e));
         }
         let r = self.inner.create_dir(path).await;
@@ -321,7 +327,7 @@ impl AsyncFileSystem for PendFS {
     }
     async fn create_file(&self, path: &str) -> VfsResult<Box<dyn Write + Send + Unpin>> {
         YieldN(self.ctl.draw()).await;
-        if let Some(e) = self.ctl.fault() {
+        if let Some(e) = self.ctl.fault_m() {
             return Err(vfs::VfsError::from(e));
         }
         let h = self.inner.create_file(path).await;
@@ -331,7 +337,7 @@ impl AsyncFileSystem for PendFS {
     }
     async fn append_file(&self, path: &str) -> VfsResult<Box<dyn Write + Send + Unpin>> {
         YieldN(self.ctl.draw()).await;
-        if let Some(e) = self.ctl.fault() {
+        if let Some(e) = self.ctl.fault_m() {
             return Err(vfs::VfsError::from(e));
         }
         let h = self.inner.append_file(path).await;
@@ -348,7 +354,7 @@ impl AsyncFileSystem for PendFS {
     }
     async fn set_creation_time(&self, path: &str, time: SystemTime) -> VfsResult<()> {
         YieldN(self.ctl.draw()).await;
-        if let Some(e) = self.ctl.fault() {
+        if let Some(e) = self.ctl.fault_m() {
             return Err(vfs::VfsError::from(e));
         }
         let r = self.inner.set_creation_time(path, time).await;
@@ -357,7 +363,7 @@ impl AsyncFileSystem for PendFS {
     }
     async fn set_modification_time(&self, path: &str, time: SystemTime) -> VfsResult<()> {
         YieldN(self.ctl.draw()).await;
-        if let Some(e) = self.ctl.fault() {
+        if let Some(e) = self.ctl.fault_m() {
             return Err(vfs::VfsError::from(e));
         }
         let r = self.inner.set_modification_time(path, time).await;
@@ -366,7 +372,7 @@ impl AsyncFileSystem for PendFS {
     }
     async fn set_access_time(&self, path: &str, time: SystemTime) -> VfsResult<()> {
         YieldN(self.ctl.draw()).await;
-        if let Some(e) = self.ctl.fault() {
+        if let Some(e) = self.ctl.fault_m() {
             return Err(vfs::VfsError::from(e));
         }
         let r = self.inner.set_access_time(path, time).await;
@@ -382,7 +388,7 @@ impl AsyncFileSystem for PendFS {
     }
     async fn remove_file(&self, path: &str) -> VfsResult<()> {
         YieldN(self.ctl.draw()).await;
-        if let Some(e) = self.ctl.fault() {
+        if let Some(e) = self.ctl.fault_m() {
             return Err(vfs::VfsError::from(e));
         }
         let r = self.inner.remove_file(path).await;
@@ -391,7 +397,7 @@ impl AsyncFileSystem for PendFS {
     }
     async fn remove_dir(&self, path: &str) -> VfsResult<()> {
         YieldN(self.ctl.draw()).await;
-        if let Some(e) = self.ctl.fault() {
+        if let Some(e) = self.ctl.fault_m() {
             return Err(vfs::VfsError::from(e));
         }
         let r = self.inner.remove_dir(path).await;
@@ -400,7 +406,7 @@ impl AsyncFileSystem for PendFS {
     }
     async fn copy_file(&self, src: &str, dest: &str) -> VfsResult<()> {
         YieldN(self.ctl.draw()).await;
-        if let Some(e) = self.ctl.fault() {
+        if let Some(e) = self.ctl.fault_m() {
             return Err(vfs::VfsError::from(e));
         }
         let r = self.inner.copy_file(src, dest).await;
@@ -409,7 +415,7 @@ impl AsyncFileSystem for PendFS {
     }
     async fn move_file(&self, src: &str, dest: &str) -> VfsResult<()> {
         YieldN(self.ctl.draw()).await;
-        if let Some(e) = self.ctl.fault() {
+        if let Some(e) = self.ctl.fault_m() {
             return Err(vfs::VfsError::from(e));
         }
         let r = self.inner.move_file(src, dest).await;
@@ -418,7 +424,7 @@ impl AsyncFileSystem for PendFS {
     }
     async fn move_dir(&self, src: &str, dest: &str) -> VfsResult<()> {
         YieldN(self.ctl.draw()).await;
-        if let Some(e) = self.ctl.fault() {
+        if let Some(e) = self.ctl.fault_m() {
             return Err(vfs::VfsError::from(e));
         }
         let r = self.inner.move_dir(src, dest).await;
